@@ -390,7 +390,7 @@ reg(Check("C15", "model_checking",
 reg(Check("C16", "model_checking",
           "request shapes: method x API key {none,valid,forged} in {header,query,form,cookie} x credentials {none,token,basic,bad,live sid,dead sid} in the same "
           "placements x body size {limit-1,limit,limit+1} x content kind {png,html,xml,text,binary} x URL shapes {canonical,with extension,relative,other dir,"
-          "traversal,%2F,trailing junk,unfinished/failed upload}; histories: BFS over {upload, publish with attachment list, set topic/user avatar, hard-delete message, "
+          "traversal,%2F,trailing junk,unfinished/failed upload}; histories: BFS over {upload, publish with attachment list, set topic/user avatar, create a group / an account with an avatar, hard-delete message, "
           "delete topic, garbage collection with cut-off before/after} against a reference model (linked or young => kept); for every history "
           "up to length 3 (quick) / 5 (thorough) the last operation is re-executed once per store call it makes with that call failing: a refused "
           "request must not have moved any attachment link, no panic, no stray bytes",
